@@ -105,6 +105,39 @@ theorem cliffordFromStabilizer_complete (t : STab) (hg : t.Good) (hi : t.Indep) 
     unfold cliffordFromStabilizer; rw [hs]
   exact ⟨_, e, cliffordFromStabilizer_sound t _ hg e⟩
 
+/-! ### replaying the synthesised circuit on a Clifford tableau (the last step of the deterministic solver) -/
+
+/-- **replaying the inverse circuit of its stabilizer half takes a Clifford tableau to |0…0⟩**: for a valid tableau `T`
+    with real rows, `run_circuit(T, circ)` with `(_, circ) = inverse_circuit(T.to_stabilizer())` is again a valid tableau,
+    and its stabilizer half generates exactly the signed group of |0…0⟩ -/
+theorem runCircuit_inverse_zero (T : Tab) (hv : T.Valid) (hr : ∀ i, i < 2 * T.n → (T.row i).ip = false)
+    (hg : (STab.ofTab T).Good) (t' : STab) (circ : List Gate) (h : (STab.ofTab T).inverseCircuit = .ok (t', circ)) :
+    (T.runCircuit circ).n = T.n ∧ (T.runCircuit circ).Valid ∧ SpanEq (STab.ofTab (T.runCircuit circ)) (STab.zero T.n) := by
+  obtain ⟨hn, hgood, hwf, hfwd, hbwd⟩ := inverseCircuit_tracks _ t' circ hg h
+  have nT : (STab.ofTab T).n = T.n := rfl
+  rw [nT] at hn hwf hbwd
+  obtain ⟨v1, v2, _⟩ := runCircuit_valid T.n circ hwf T rfl hv hr
+  refine ⟨v1, v2, ?_⟩
+  obtain ⟨img, g'⟩ := ofTab_runCircuit_image T.n circ hwf T rfl hg
+  have hz := isZero_spanEq t' hgood (inverseCircuit_isZero _ t' circ hg h)
+  rw [hn] at hz
+  -- both `t'` and the stabilizer half of the replayed tableau are images of the same group under `circ`
+  have s : SpanEq (STab.ofTab (T.runCircuit circ)) t' := by
+    refine ⟨img.nT'.trans hn.symm, ?_, ?_⟩
+    · intro b hb
+      obtain ⟨a, ha, ea⟩ := img.bwd b hb
+      have := hfwd a ha
+      unfold Spn at this ⊢
+      rw [hn] at this ⊢
+      exact InSpan.eqv _ _ this ea
+    · intro b hb
+      obtain ⟨a, ha, ea⟩ := hbwd b hb
+      have := img.fwd a ha
+      unfold Spn at this ⊢
+      rw [img.nT'] at this ⊢
+      exact InSpan.eqv _ _ this ea
+  exact s.trans hz
+
 /-! ### graph states -/
 
 /-- the generators `X_i Z_{N(i)}` of a graph state are real and commute -/
